@@ -71,7 +71,7 @@ def run(chk):
     chk.build_vh()
     d = chk.sub("rl")
     # (a) orchestrator API: race windows + jittered random schedules
-    scripts = window_scripts() + [random_script("rnd%d" % i, rnd) for i in range(3000 if thorough else 300)]
+    scripts = window_scripts() + [random_script("rnd%d" % i, rnd) for i in range(9000 if thorough else 300)]
     nsh = 16
     shards = [scripts[i::nsh] for i in range(nsh)]
     byid = {s["id"]: s for s in scripts}
@@ -133,7 +133,7 @@ def run(chk):
     cov["listener_traces"] = lscommon.run(chk, rnd, thorough)
     # (b, c) reloads with valid / invalid / incompatible configurations during end-to-end histories
     kinds = ("same", "transform", "invalid", "incompatible", "keysdrop", "addoutput")
-    e2e = [A.random_script("e2e%d" % i, rnd, kinds) for i in range(500 if thorough else 24)]
+    e2e = [A.random_script("e2e%d" % i, rnd, kinds) for i in range(1500 if thorough else 24)]
     for i, k in enumerate(kinds):    # each kind at least once, with data still undelivered at the reload and none after it
         e2e.append({"id": "reload-%s-quiet" % k, "keys": 2, "memWindow": 0,
                     "gens": [{"upstream": ["noAck", "noAck", "noAck"], "clients": [{"n": 40, "pauseEvery": 10, "pauseMs": 32, "delayMs": 0}], "stopAfterMs": 400,
